@@ -109,6 +109,23 @@ fn main() {
         "run" => cactus::run_main(&args),
         "std" => stdrc::run_main(&args),
         "ring" => cactus::ring_main(&args),
+        "glue" => {
+            // the delegating API surface on cactusref and on std::rc, side by side
+            let a = cactus::glue();
+            let b = stdrc::glue();
+            let mut bad = 0;
+            for (i, (x, y)) in a.iter().zip(b.iter()).enumerate() {
+                if x != y {
+                    bad += 1;
+                    println!("GLUEDIFF {} cactusref=[{}] std=[{}]", i, x, y);
+                }
+            }
+            if a.len() != b.len() {
+                bad += 1;
+                println!("GLUEDIFF len cactusref={} std={}", a.len(), b.len());
+            }
+            println!("GLUE lines={} differences={}", a.len(), bad);
+        }
         _ => {
             eprintln!("usage: crharness run|std [skip] [pad] [noquarantine] | ring <n> [chords] [stack]");
             std::process::exit(2);
